@@ -152,3 +152,26 @@ def corpus_charts():
         for i in range(len(sf.charts)):
             out.append((rel, i))
     return out
+
+
+def interleaved_reads(nd, lead=3):
+    """two iterators over the same NoteData alive at once, the second `lead` notes ahead; returns both note lists"""
+    ia, ib = iter(nd), iter(nd)
+    ra, rb = [], []
+    for _ in range(lead):
+        x = next(ib, None)
+        if x is not None:
+            rb.append(x)
+    done_a = done_b = False
+    while not (done_a and done_b):
+        x = next(ia, None)
+        if x is None:
+            done_a = True
+        else:
+            ra.append(x)
+        x = next(ib, None)
+        if x is None:
+            done_b = True
+        else:
+            rb.append(x)
+    return ra, rb
